@@ -72,7 +72,9 @@ func (a *Actions) Ref() string {
 type Note struct {
 	XMLName xml.Name `xml:"note"`
 
-	Text string `xml:",cdata"`
+	// character data, escaped: a CDATA section cannot carry a carriage return (a parser
+	// turns a raw CR or CR LF into LF), &#xD; can
+	Text string `xml:",chardata"`
 	Type string `xml:"type,attr,omitempty"`
 }
 
